@@ -84,7 +84,10 @@ fn factory_seeds<const A: u8>(t: Tier) -> Vec<Seed> {
 }
 
 fn factory_parse<const A: u8>(b: &[u8], _n: usize) -> bool {
-    limit_address_space();
+    // (not for Zstd: its decompressor legitimately asks for a fixed 100 MiB buffer, see the findings)
+    if matches!(A, 3 | 4 | 5 | 7) {
+        limit_address_space();
+    }
     with_compressor(A, |c| c.decompress(b).is_ok()).unwrap_or(false)
 }
 
